@@ -46,8 +46,7 @@ def compare(ctx, g, h, perm, prune, o1, o2):
     inp = {"game": gen.desc(g), "transformed": gen.desc(h), "perm": perm, "prune": prune}
     a, b = o1["outcome"], o2["outcome"]
     if "Timeout" in (a, b):
-        if a != b:
-            ctx.violation("terminates-in-one-presentation-only", inp, {"original": a, "transformed": b})
+        ctx.count("timeout_skipped")          # wall-clock dependent; termination is C06's clause
         return
     if a != b:
         sig = None
